@@ -35,6 +35,16 @@ CHECKS = {
          "announce / withdraw / replace at plan-chosen simulated times around the update sender's aggregation tick (same-window withdraw-after-announce, several operations per window, aggregation interval as a per-run knob, same-instant tie shuffling); once changes stop the replay of the UPDATEs received by the peer must equal the Adj-RIB-Out"),
  "C11": ("bgpsim", "5/C11", "deterministic simulation: add-path send histories with shared identifiers",
          "add-path send sessions with long add/remove/re-add cycles over few prefixes whose paths share attributes; distinct paths of a prefix must have distinct ids, ids in the peer's view must be the ids the Adj-RIB-Out stores, and every selected exportable path must be stored (allocation keeps working)"),
+ "C12": ("bgpsim", "5/C12", "deterministic simulation: metamorphic twin run (policies replaced at run time vs configured from the start)",
+         "(old policy, new policy, route set) triples from the bounded policy language, including replacements that differ in exactly one action value or filter bound and repeated replacements on live sessions; a twin run with the final policies from the start must end with equal Loc-RIB and Adj-RIB-Out contents"),
+ "C13": ("bgpsim", "5/C13", "deterministic simulation: deep table snapshots bracketing export-side operations",
+         "export-policy replacements and the establishment of a receive-only session on a DUT with live sessions and routes; deep snapshots (all attributes, order, ids) of the Loc-RIB, every Adj-RIB-In and every other session's Adj-RIB-Out taken before and after each such operation must be identical"),
+ "C19": ("bgpsim", "5/C19", "deterministic simulation with in-flight corruption classified by an independent decoder",
+         "valid UPDATEs mutated in the ways the property lists (length fields that do not add up, attribute lengths, NLRI prefix length beyond 32, missing ORIGIN/AS_PATH/next hop), delivered whole or fragmented to established sessions; no (prefix, tag) may appear in any Adj-RIB-In or Loc-RIB that was not there before; a crash of the DUT is a violation"),
+ "C21": ("bgpsim", "5/C21", "deterministic simulation with fault injection: hostile byte streams in OpenSent, OpenConfirm and Established",
+         "header lengths below 19 and above 4096, bad marker, bad type, truncation then EOF, noise, messages illegal for the state, bit flips, arbitrary chunking; oracles: no crash, the session is torn down and the connection closed within bounded simulated time, a clean reconnect of the same peer reaches Established, a second session keeps its routes, and unambiguous error classes get the RFC 4271 section 6 NOTIFICATION"),
+ "C22": ("bgpsim", "5/C22", "deterministic simulation: OPEN domain x configuration against a reference negotiation, timers on the simulated clock",
+         "OPENs over AS / AS_TRANS+4-octet capability / identifier 0, own, other / hold 0..5 and large / add-path, role capabilities, answered after 0.3 ms..2.5 s and optionally fragmented; reference admission decides admit or the OPEN error subcode; rejected: NOTIFICATION and connection closed by the DUT; admitted: negotiated hold = min, keepalives every hold/3 of simulated time, expiry of a silenced peer at the negotiated time, and UPDATE encodings (4-octet AS, add-path) exactly as negotiated (the peer decodes with the expected options)"),
  "C20": ("bgpsim", "5/C20", "deterministic simulation: per-NLRI reference Adj-RIB-In",
          "valid UPDATEs with 1..N NLRI per family, distinct path identifiers, mixed announce/withdraw, classic and MP encodings, add-path on/off, fragmentation; a reference Adj-RIB-In updated NLRI by NLRI must equal the real Adj-RIB-In after every message"),
 }
